@@ -1,11 +1,20 @@
 import FluentVerif.Proto.DecodeLemmas2
 import FluentVerif.Proto.Chunk
+import FluentVerif.Proto.Alloc
 /-! # C10 — decoders are total on arbitrary bytes (decoder half)
 
 * `C10_noPanic_T`: for every byte string, path and receiver the decoder returns a value or an
   error, never `panic` (termination is structural: every model function is total, recursion is on
   fuel `2·|b| + 2`).
-* `C10_prefix_T`: each message decoder rejects every strict prefix of an input it accepts in full. -/
+* `C10_prefix_T`: each message decoder rejects every strict prefix of an input it accepts in full.
+* memory clause ("when decoding from a byte slice, memory requested stays proportionate to the input
+  length").  `T.alloc b` (`Proto/Alloc.lean`) counts the elements the slice decoder of `T` requests through
+  count-sized `make` calls; every other request is length-checked against the remaining input first.
+  The clause at full strength, `∀ b, T.alloc b ≤ b.length`, is **false** of the model and of the code:
+  `C10_alloc_full_false` (an 8-byte input requests 2³² − 1 elements; open finding
+  C10-count-driven-allocation).  Proved instead, `C10_alloc_T_partial`: on every input the decoder
+  *accepts*, the elements requested are at most the bytes consumed — what is missing is the rejected
+  inputs, where a declared count is honoured before the elements turn out to be absent. -/
 namespace FV
 
 theorem C10_noPanic_Message (p recv b) : (Message.unmarshal p recv b).NoPanic := Message.unmarshal_noPanic p recv b
@@ -90,6 +99,48 @@ theorem C10_eventTime_total (p : Bytes) : decodeET p = none ∨ ∃ i, decodeET 
   cases h : decodeET p with
   | none => exact Or.inl rfl
   | some i => exact Or.inr ⟨i, rfl⟩
+
+/-! ### memory clause -/
+
+theorem C10_alloc_Message_partial (recv b v r) (h : Message.unmarshal .bytes recv b = .ok v r) :
+    Message.alloc b ≤ b.length - r.length := by have := Message.alloc_le h; omega
+theorem C10_alloc_MessageExt_partial (recv b v r) (h : MessageExt.unmarshal .bytes recv b = .ok v r) :
+    MessageExt.alloc b ≤ b.length - r.length := by have := MessageExt.alloc_le h; omega
+theorem C10_alloc_Forward_partial (recv b v r) (h : Forward.unmarshal .bytes recv b = .ok v r) :
+    Forward.alloc b ≤ b.length - r.length := by have := Forward.alloc_le h; omega
+theorem C10_alloc_Entry_partial (recv b v r) (h : Entry.unmarshal .bytes recv b = .ok v r) :
+    Entry.alloc b ≤ b.length - r.length := by have := Entry.alloc_le h; omega
+theorem C10_alloc_EntryExt_partial (recv b v r) (h : EntryExt.unmarshal .bytes recv b = .ok v r) :
+    EntryExt.alloc b ≤ b.length - r.length := by have := EntryExt.alloc_le h; omega
+theorem C10_alloc_EntryList_partial (b v r) (h : EntryList.unmarshal .bytes b = .ok v r) :
+    EntryList.alloc b ≤ b.length - r.length := by have := EntryList.alloc_le h; omega
+/-- `UnmarshalPacked` that reads the whole stream without error -/
+theorem C10_alloc_unmarshalPacked_partial (b es) (h : unmarshalPacked b = (es, true)) :
+    unmarshalPackedAlloc b ≤ b.length := unmarshalPackedAllocF_le _ b [] es h
+
+/-- `["", 0, <array32 declaring 0xffffffff elements>` … and nothing else: eight bytes -/
+def allocWitness : Bytes := [0x93, 0xa0, 0x00, 0xdd, 0xff, 0xff, 0xff, 0xff]
+/-- `["", <array32 declaring 0xffffffff entries>`: seven bytes, `make(EntryList, 4294967295)` -/
+def allocWitnessFwd : Bytes := [0x92, 0xa0, 0xdd, 0xff, 0xff, 0xff, 0xff]
+
+theorem C10_alloc_witness_Message : Message.alloc allocWitness = 4294967295 ∧ allocWitness.length = 8 ∧
+    (Message.unmarshal .bytes {} allocWitness).rest? = none := by
+  refine ⟨by decide +kernel, rfl, by decide +kernel⟩
+theorem C10_alloc_witness_Forward : Forward.alloc allocWitnessFwd = 4294967295 ∧ allocWitnessFwd.length = 7 ∧
+    (Forward.unmarshal .bytes {} allocWitnessFwd).rest? = none := by
+  refine ⟨by decide +kernel, rfl, by decide +kernel⟩
+
+/-- the memory clause at full strength is false of the model -/
+theorem C10_alloc_full_false : ¬ ∀ b, Message.alloc b ≤ b.length := by
+  intro h
+  have := h allocWitness
+  rw [C10_alloc_witness_Message.1] at this
+  simp [allocWitness] at this
+
+-- non-vacuity of the partial theorem: an accepted message whose record requests elements
+example : (Message.unmarshal .bytes {} [0x93, 0xa1, 0x79, 0x02, 0x81, 0xa1, 0x6b, 0x92, 0x01, 0x02]).rest? = some [] ∧
+    Message.alloc [0x93, 0xa1, 0x79, 0x02, 0x81, 0xa1, 0x6b, 0x92, 0x01, 0x02] = 3 := by
+  constructor <;> decide +kernel
 
 -- non-vacuity: an accepted input exists, and its strict prefix is rejected
 example : (Message.unmarshal .stream {} [0x93, 0xa1, 0x79, 0x02, 0x80]).rest? = some [] := by decide
